@@ -113,21 +113,24 @@ Theorem C14_key_inv_step : forall s o, key_inv s -> key_inv (snd (step s o)).
 Proof. exact key_inv_step. Qed.
 
 (* ---- non-vacuity ---- *)
-Definition ex_init : state := init_state 3 5 600 1000.
-(* user 1 creates consumer 0, hands it to gov, gov makes it Top N = 60 *)
-Definition ex_topn : list op :=
-  [Create 1 None NoInit; Update 0 1 (NewOwner gov) None NoInit; Update 0 gov NoOwner (Some 60) NoInit].
-
+(* user 1 creates consumer 0, hands it to gov, gov makes it Top N = 60:
+   [Create 1 None NoInit; Update 0 1 (NewOwner gov) None NoInit; Update 0 gov NoOwner (Some 60) NoInit] *)
 Example C14_ex_topn_reachable :
-  owner_of (run_ops ex_init ex_topn) 0 = Some gov /\ topn_of (run_ops ex_init ex_topn) 0 = Some 60.
-Proof. vm_compute. split; reflexivity. Qed.
+  let s := run_ops (init_state 3 5 600 1000)
+             [Create 1 None NoInit; Update 0 1 (NewOwner gov) None NoInit; Update 0 gov NoOwner (Some 60) NoInit] in
+  owner_of s 0 = Some gov /\ topn_of s 0 = Some 60 /\ topn_inv s /\ key_inv s.
+Proof.
+  cbv zeta. split; [vm_compute; reflexivity|]. split; [vm_compute; reflexivity|].
+  split; [apply topn_inv_reachable|apply key_inv_reachable].
+Qed.
 
 (* single messages that change owner and Top_N together, on the gov-owned Top-N consumer:
    gov -> user 2 with Top_N 0 at once is accepted; gov -> user 2 keeping / setting Top_N is refused;
    a bare owner change is refused; and on a user-owned consumer: user -> gov with Top_N 60 at once is refused
    (the pre-check reads the OLD owner), user setting Top_N is refused *)
 Example C14_ex_both_directions :
-  let s := run_ops ex_init ex_topn in
+  let s := run_ops (init_state 3 5 600 1000)
+             [Create 1 None NoInit; Update 0 1 (NewOwner gov) None NoInit; Update 0 gov NoOwner (Some 60) NoInit] in
   let s2 := snd (step s (Update 0 gov (NewOwner 2) (Some 0) NoInit)) in
   fst (step s (Update 0 gov (NewOwner 2) (Some 0) NoInit)) = 0 /\
   owner_of s2 0 = Some 2 /\ topn_of s2 0 = Some 0 /\
@@ -143,7 +146,9 @@ Proof. vm_compute. repeat split; reflexivity. Qed.
 (* validators: v0 opts in with key 7; v1 cannot take key 7 nor v0's provider key; a foreign signer is
    refused by ValidateBasic; v1's own records are those of before *)
 Example C14_ex_validators :
-  let s := snd (step (run_ops ex_init ex_topn) (OptIn 0 0 (oper_acct 0) 7)) in
+  let s := snd (step (run_ops (init_state 3 5 600 1000)
+                        [Create 1 None NoInit; Update 0 1 (NewOwner gov) None NoInit; Update 0 gov NoOwner (Some 60) NoInit])
+                     (OptIn 0 0 (oper_acct 0) 7)) in
   (exists cr, get_cons s 0 = Some cr /\ c_opted cr = [0] /\ c_keys cr = [(0, 7)] /\ c_used cr = [(7, 0)]) /\
   fst (step s (AssignKey 0 1 (oper_acct 1) 7)) = E_OTHER /\
   fst (step s (AssignKey 0 1 (oper_acct 1) 1000)) = E_OTHER /\
